@@ -1,6 +1,7 @@
 import OpenHTF.Driver.C20
 import OpenHTF.Driver.C16
 import OpenHTF.Driver.C13
+import OpenHTF.Driver.C07
 open OpenHTF.Driver
 
 def stripNl (s : String) : String :=
@@ -11,6 +12,7 @@ def dispatch (line : String) : String :=
   | "C20" :: ts => C20.handle ts
   | "C16" :: ts => C16.handle ts
   | "C13" :: ts => C13.handle ts
+  | "C07" :: ts => C07.handle ts
   | _ => reply false false "unknown-property"
 
 partial def loop (i o : IO.FS.Stream) (acc : Array String) (n : Nat) : IO Unit := do
